@@ -5,7 +5,9 @@ use super::*;
 use fuel_storage::{StorageAsRef, StorageInspect, StorageSize, StorageRead};
 use fuel_tx::{field::Outputs, Output, Transaction, Cacheable};
 
-type Vm = Interpreter<MemoryInstance, MemoryStorage, Script, NotSupportedEcal, Normal>;
+use super::slotst::SlotStorage;
+use crate::storage::BlobBytes;
+type Vm = Interpreter<MemoryInstance, SlotStorage, Script, NotSupportedEcal, Normal>;
 type IErr = InterpreterError<core::convert::Infallible>;
 
 #[derive(Clone, Copy, kani::Arbitrary)]
@@ -96,9 +98,8 @@ fn other_root() -> Bytes32 { Bytes32::new([0xEE; 32]) }
 /// `pre`: what the table holds under the transaction's root.  A second, concrete root always holds
 /// an unrelated uncompleted upload that must never be touched (interleaved uploads of several roots).
 fn upload_inner_case<const P: usize, const W: usize>(pre: Pre) {
-    let root_b: [u8; 32] = kani::any();
-    let root = Bytes32::new(root_b);
-    kani::assume(root != other_root());
+    // table keys are harness constants: a symbolic 32-byte BTreeMap key gives no verdict in 900 s
+    let root = Bytes32::new([0x55; 32]);
     let idx: u16 = kani::any();
     let total: u16 = kani::any();
     let k: u16 = kani::any();
@@ -107,28 +108,27 @@ fn upload_inner_case<const P: usize, const W: usize>(pre: Pre) {
     let wit: B<W> = kani::any();
     let other_bytes: B<2> = kani::any();
     let other_n: u16 = kani::any();
-    let mut st = MemoryStorage::new(Default::default(), ContractId::zeroed());
+    let mut st = SlotStorage::new();
     let other_val = UploadedBytecode::Uncompleted { bytecode: vec_of(&other_bytes), uploaded_subsections_number: other_n };
-    st.state_transition_bytecodes_mut().insert(other_root(), other_val.clone());
+    st.uploaded[0] = Some((other_root(), other_val.clone()));
     match pre {
         Pre::Absent => {}
         Pre::Uncompleted => {
-            st.state_transition_bytecodes_mut().insert(root, UploadedBytecode::Uncompleted {
-                bytecode: vec_of(&prior), uploaded_subsections_number: k });
+            st.uploaded[1] = Some((root, UploadedBytecode::Uncompleted { bytecode: vec_of(&prior), uploaded_subsections_number: k }));
         }
         Pre::Completed => {
-            st.state_transition_bytecodes_mut().insert(root, UploadedBytecode::Completed(vec_of(&prior)));
+            st.uploaded[1] = Some((root, UploadedBytecode::Completed(vec_of(&prior))));
         }
     }
-    let before = st.state_transition_bytecodes_mut().get(&root).cloned();
+    let before = st.uploaded_get(&root).cloned();
     let mut upload = mk_upload(root, idx, total, &wit);
     let gas_costs = GasCosts::default();
     let r: Result<(), IErr> = Vm::upload_inner(&mut upload, &mut st, InitialBalances::default(), &gas_costs,
                                                 &FeeParameters::DEFAULT, &AssetId::zeroed(), 0);
-    let after = st.state_transition_bytecodes_mut().get(&root).cloned();
+    let after = st.uploaded_get(&root).cloned();
     // the unrelated root is never touched
-    assert!(st.state_transition_bytecodes_mut().get(&other_root()) == Some(&other_val));
-    assert!(st.state_transition_bytecodes_mut().len() == if after.is_some() { 2 } else { 1 });
+    assert!(st.uploaded_get(&other_root()) == Some(&other_val));
+    assert!(st.uploaded_count() == if after.is_some() { 2 } else { 1 });
     // expected number of already uploaded parts / accumulated bytes
     let (exp_k, have): (u16, usize) = match pre { Pre::Absent => (0, 0), _ => (k, P) };
     if pre == Pre::Completed {
@@ -185,63 +185,14 @@ upload_inner_harness!(c35_upload_inner_uncompleted_p2_w2, 2, 2, Pre::Uncompleted
 upload_inner_harness!(c35_upload_inner_completed_p2_w1, 2, 1, Pre::Completed);
 
 // ---------------------------------------------------------------------------------------
-// experiments: which part of upload_inner is expensive
-// ---------------------------------------------------------------------------------------
-#[kani::proof]
-#[kani::unwind(8)]
-#[kani::stub(core::result::Result::expect, expect_model)]
-#[kani::stub(core::result::Result::unwrap, unwrap_model)]
-#[kani::stub(crate::error::Bug::new, crate::error::Bug::verif_new)]
-fn x35_finalize_only() {
-    let wit: B<2> = kani::any();
-    let mut upload = mk_upload(Bytes32::zeroed(), 0, 1, &wit);
-    let gas_costs = GasCosts::default();
-    let ib = InitialBalances::default();
-    let rb = RuntimeBalances::try_from(ib.clone());
-    assert!(rb.is_ok());
-    let r: Result<(), RuntimeError<core::convert::Infallible>> = Vm::finalize_outputs(&mut upload, &gas_costs, &FeeParameters::DEFAULT, &AssetId::zeroed(), false, 0, &ib, &rb.unwrap(), 0);
-    assert!(r.is_ok());
-}
-
-#[kani::proof]
-#[kani::unwind(8)]
-#[kani::stub(core::result::Result::expect, expect_model)]
-#[kani::stub(core::result::Result::unwrap, unwrap_model)]
-fn x35_runtime_balances_only() {
-    let ib = InitialBalances::default();
-    let rb = RuntimeBalances::try_from(ib.clone());
-    assert!(rb.is_ok());
-    core::mem::forget(rb);
-}
-
-#[kani::proof]
-#[kani::unwind(8)]
-#[kani::stub(core::result::Result::expect, expect_model)]
-#[kani::stub(core::result::Result::unwrap, unwrap_model)]
-fn x35_storage_only() {
-    let root = Bytes32::new(kani::any());
-    kani::assume(root != other_root());
-    let mut st = MemoryStorage::new(Default::default(), ContractId::zeroed());
-    let b: B<2> = kani::any();
-    st.state_transition_bytecodes_mut().insert(other_root(), UploadedBytecode::Completed(vec_of(&b)));
-    let got = st.storage_as_ref::<UploadedBytecodes>().get(&root).unwrap().map(|x| x.into_owned());
-    assert!(got.is_none());
-    st.storage_as_mut::<UploadedBytecodes>().insert(&root, &UploadedBytecode::Completed(vec_of(&b))).unwrap();
-    assert!(st.state_transition_bytecodes_mut().len() == 2);
-    core::mem::forget(st);
-}
-
-// ---------------------------------------------------------------------------------------
 // blob_inner: a blob id can be created only once, with exactly the witness data
 // ---------------------------------------------------------------------------------------
 pub(crate) fn toy_hash<Bb: AsRef<[u8]>>(data: Bb) -> Bytes32 {
     let d = data.as_ref();
     let n = d.len();
     let mut w = [0u8; 32];
+    // depends on the length only, so that table keys derived from it stay concrete
     w[0] = n as u8;
-    w[1] = if n > 0 { d[0] } else { 0 };
-    w[2] = if n > 1 { d[1] } else { 0 };
-    w[3] = if n > 2 { d[n - 1] } else { 0 };
     w[31] = 0xB1;
     Bytes32::new(w)
 }
@@ -250,11 +201,11 @@ fn blob_case<const W: usize>(present: bool) {
     let data: B<W> = kani::any();
     let id = BlobId::new(*toy_hash(&data.0[..]));
     let other_id = BlobId::new([0xEE; 32]);
-    let mut st = MemoryStorage::new(Default::default(), ContractId::zeroed());
+    let mut st = SlotStorage::new();
     let other: B<1> = kani::any();
-    st.storage_as_mut::<BlobData>().insert(&other_id, &other.0[..]).unwrap();
+    st.blobs[0] = Some((other_id, BlobBytes::from(vec_of(&other))));
     if present {
-        st.storage_as_mut::<BlobData>().insert(&id, &data.0[..]).unwrap();
+        st.blobs[1] = Some((id, BlobBytes::from(vec_of(&data))));
     }
     let mut blob = Transaction::blob(BlobBody { id, witness_index: 0 }, Policies::new(), Vec::new(), Vec::new(),
                                      alloc::vec![Witness::from(vec_of(&data))]);
@@ -269,14 +220,14 @@ fn blob_case<const W: usize>(present: bool) {
         kani::cover!(true, "blob created");
     }
     // in both cases the table now holds exactly the witness data under the id, and the other blob is untouched
-    let got = st.storage_as_ref::<BlobData>().get(&id).unwrap();
+    let got = st.blob_get(&id);
     match got {
-        Some(b) => { let empty: B<0> = B([]); assert!(is_concat(b.as_ref().as_ref(), &empty, &data)); }
+        Some(b) => { let empty: B<0> = B([]); assert!(is_concat(b.0.as_ref(), &empty, &data)); }
         None => assert!(false, "blob must be stored"),
     }
-    let o = st.storage_as_ref::<BlobData>().get(&other_id).unwrap();
+    let o = st.blob_get(&other_id);
     match o {
-        Some(b) => { let empty: B<0> = B([]); assert!(is_concat(b.as_ref().as_ref(), &empty, &other)); }
+        Some(b) => { let empty: B<0> = B([]); assert!(is_concat(b.0.as_ref(), &empty, &other)); }
         None => assert!(false, "unrelated blob must stay"),
     }
     core::mem::forget(st);
@@ -305,22 +256,23 @@ blob_harness!(c35_blob_again_w2, 2, true);
 // ---------------------------------------------------------------------------------------
 fn upgrade_state_transition_case() {
     let cur: u32 = kani::any();
-    let root = Bytes32::new(kani::any());
-    let mut st = MemoryStorage::new_with_versions(Default::default(), ContractId::zeroed(), 0, cur);
+    let root = Bytes32::new([0x55; 32]);
+    let mut st = SlotStorage::new();
+    st.st_version = cur;
     // bytecode table: absent / uncompleted / completed under `root`
     let which: u8 = kani::any();
     kani::assume(which < 3);
     let b: B<1> = kani::any();
     if which == 1 {
-        st.state_transition_bytecodes_mut().insert(root, UploadedBytecode::Uncompleted { bytecode: vec_of(&b), uploaded_subsections_number: kani::any() });
+        st.uploaded[0] = Some((root, UploadedBytecode::Uncompleted { bytecode: vec_of(&b), uploaded_subsections_number: kani::any() }));
     } else if which == 2 {
-        st.state_transition_bytecodes_mut().insert(root, UploadedBytecode::Completed(vec_of(&b)));
+        st.uploaded[0] = Some((root, UploadedBytecode::Completed(vec_of(&b))));
     }
     let next = if cur == u32::MAX { u32::MAX } else { cur + 1 };
     let taken: bool = kani::any();
     let old = Bytes32::new([0x77; 32]);
     if taken {
-        st.state_transition_bytecodes_versions_mut().insert(next, old);
+        st.st_table[0] = Some((next, old));
     }
     let mut tx = Transaction::upgrade(UP::StateTransition { root }, Policies::new(), Vec::new(), Vec::new(), Vec::new());
     tx.precompute(&fuel_types::ChainId::new(0)).unwrap();
@@ -330,8 +282,8 @@ fn upgrade_state_transition_case() {
     if which != 2 {
         assert!(matches!(r, Err(InterpreterError::Panic(PanicReason::UnknownStateTransactionBytecodeRoot))));
         // nothing installed
-        assert!(st.state_transition_bytecodes_versions_mut().len() == taken as usize);
-        if taken { assert!(st.state_transition_bytecodes_versions_mut().get(&next) == Some(&old)); }
+        assert!(st.st_count() == taken as usize);
+        if taken { assert!(st.st_get(next) == Some(old)); }
         kani::cover!(which == 1, "uncompleted bytecode refused");
         kani::cover!(which == 0, "unknown root refused");
     } else if taken {
@@ -339,8 +291,8 @@ fn upgrade_state_transition_case() {
         kani::cover!(true, "taken version refused");
     } else {
         assert!(r.is_ok());
-        assert!(st.state_transition_bytecodes_versions_mut().len() == 1);
-        assert!(st.state_transition_bytecodes_versions_mut().get(&next) == Some(&root));
+        assert!(st.st_count() == 1);
+        assert!(st.st_get(next) == Some(root));
         kani::cover!(cur == u32::MAX, "installed at the saturated version");
         kani::cover!(cur < u32::MAX, "installed under current + 1");
     }
@@ -375,11 +327,12 @@ pub(crate) fn upgrade_metadata_model(tx: &Upgrade) -> Result<UpgradeMetadata, Va
 
 fn upgrade_consensus_case() {
     let cur: u32 = kani::any();
-    let mut st = MemoryStorage::new_with_versions(Default::default(), ContractId::zeroed(), cur, 0);
+    let mut st = SlotStorage::new();
+    st.cp_version = cur;
     let next = if cur == u32::MAX { u32::MAX } else { cur + 1 };
     let taken: bool = kani::any();
     if taken {
-        st.consensus_parameters_versions_mut().insert(next, ConsensusParameters::default());
+        st.cp_table[0] = Some(next);
     }
     let mut tx = Transaction::upgrade(UP::ConsensusParameters { witness_index: 0, checksum: Bytes32::zeroed() },
                                       Policies::new(), Vec::new(), Vec::new(), alloc::vec![Witness::from(alloc::vec![1u8, 2])]);
@@ -396,8 +349,8 @@ fn upgrade_consensus_case() {
         kani::cover!(cur < u32::MAX, "installed under current + 1");
     }
     // exactly one entry, under current + 1 (saturating)
-    assert!(st.consensus_parameters_versions_mut().len() == 1);
-    assert!(st.consensus_parameters_versions_mut().contains_key(&next));
+    assert!(st.cp_count() == 1);
+    assert!(st.cp_has(next));
     core::mem::forget(st);
     core::mem::forget(tx);
 }
